@@ -396,6 +396,8 @@ def run_check(chk, tier, seed):
     # stage 3: correspondence
     escalated = drift or not proof_ok
     n = chk.budget(tier, escalated)
+    from harness import implcov          # measures which implementation lines stages 3 and 4 execute (evidence only)
+    implcov.start(REPO)
     corr_cases = []
     disagreements = []
     driver_ok = True
@@ -422,6 +424,7 @@ def run_check(chk, tier, seed):
     except Infra:
         raise
     corr_ok = driver_ok and not disagreements
+    implcov.mark('corr')
 
     # stage 4: search (always; large budget when something above broke)
     sbudget = chk.budget(tier, escalated or not corr_ok)
@@ -431,6 +434,12 @@ def run_check(chk, tier, seed):
                                        2400 if tier == 'quick' else 7200)
     except Hang:
         raise Infra('the search stage did not finish within its CPU budget (a call without a watchdog spins?)')
+
+    implcov.stop()
+    try:
+        impl_cov = implcov.report(pid, REPO, VERIF, chk.anchors)
+    except Exception as e:                # a measurement, never a verdict
+        impl_cov = dict(measured=False, why=f'{type(e).__name__}: {e}')
 
     # stage 5: verdict
     new, old = [], []
@@ -488,6 +497,7 @@ def run_check(chk, tier, seed):
             known_findings_seen=[f.key for f in old],
             notes=notes,
             stats=getattr(chk, 'stats', {}),
+            impl_line_coverage=impl_cov,
         ),
         assumptions=list(chk.assumptions),
         wall_s=round(time.time() - t0, 2),
